@@ -60,6 +60,7 @@ struct Run {
 	std::map<std::string, bool> flags;
 	std::map<std::string, std::string> snaps;
 	long opsDone = 0;
+	long stepsLeft = -1;   // plan-wide budget of microsteps for the "run" ops (-1: none): charts that loop without events must not make a run arbitrarily long
 	long exceptions = 0;
 	bool ended = false;
 };
@@ -235,6 +236,11 @@ static void execOp(const std::string& actor, size_t idx, const js::Value& op) {
 			const js::Value& until = op["until"];
 			bool snap = op["snap"].boolean(false);
 			for (int64_t k = 0; k < maxSteps; k++) {
+				if (R->stepsLeft == 0) {
+					result = "BUDGET";
+					break;
+				}
+				if (R->stepsLeft > 0) R->stepsLeft--;
 				doStep(actor, R->slots[i], interp, block, result);
 				if (snap && (result == "MACROSTEPPED" || result == "IDLE")) {
 					// snapshot at every stable point (C14): the text goes into the history
@@ -436,6 +442,7 @@ void runPlan(const js::Value& plan) {
 	run.slots.resize(16);
 	R = &run;
 	run.plan = &plan;
+	run.stepsLeft = plan["step_budget"].i64(-1);
 	g_runId = (uint64_t)plan["id"].i64(0);
 	g_sessTag.clear();
 	g_childCount = 0;
